@@ -8,7 +8,7 @@ def run(chk):
     # known finding: xmpp_send_raw() during negotiation reaches the wire (class: a `userraw` element written
     # before the connection was reported up)
     chk.known_preds[KNOWN] = lambda rec: "userraw" in rec.get("what", "")
-    results = negsim.run_check(chk, "C03", [("policy", negsim.policy_scenarios), ("reconnect", negsim.reconnect_scenarios), ("resume", negsim.resume_scenarios), ("userid", negsim.userid_scenarios)], 700)
+    results = negsim.run_check(chk, "C03", [("policy", negsim.policy_scenarios), ("reconnect", negsim.reconnect_scenarios), ("resume", negsim.resume_scenarios), ("userid", negsim.userid_scenarios), ("slashres", negsim.slashres_scenarios)], 700)
     for sc, toks, info, mt in results:
         up = False
         for t in toks:
